@@ -21,6 +21,46 @@ def run(ctx):
                assumptions=["the helper model is hand-written from the two ComputeInputHash* bodies; tie is behavioural: values biased to 0, 1, small, 1..5 leading zero bytes, r-1, 2^256-1; indices 0 and 2^32-1; batch 0..16",
                             "gen-test-params: the 20 lines of main.go's action are replicated in the harness on the real poseidon_tree/prover packages (the CLI itself is exercised by C19)",
                             "Keccak-256 reference of C04; Poseidon reference of C05"])
+    cli_grid(ctx)
+
+
+def cli_grid(ctx):
+    """The real `gnark-mbu gen-test-params` on a grid of dimensions (including full trees: batch =
+    2^depth for insertion, 2*batch = 2^depth for deletion) against the proved generator model."""
+    import json, subprocess
+    from .common import Violation
+    cli = common.build_cli(ctx)
+    num = lambda s: str(int(s, 0))
+    lines, outs = [], []
+    dims = [(m, d, b) for d in range(1, ctx.pick(5, 8)) for b in range(1, ctx.pick(5, 9)) for m in ('insertion', 'deletion')
+            if (b <= 2 ** d if m == 'insertion' else 2 * b <= 2 ** d)]
+    for m, d, b in dims:
+        p = common.run([cli, 'gen-test-params', '--mode', m, '--tree-depth', str(d), '--batch-size', str(b)])
+        try:
+            j = json.loads(p.stdout)
+            rows = '|'.join(','.join(num(x) for x in row) if row else '-' for row in j['merkleProofs'])
+            ids = ','.join(num(x) for x in j['identityCommitments'])
+            if m == 'insertion':
+                got = f"ih={num(j['inputHash'])};si={j['startIndex']};pre={num(j['preRoot'])};post={num(j['postRoot'])};ids={ids};mp={rows}"
+            else:
+                idx = ','.join(str(x) for x in j['deletionIndices']) if j['deletionIndices'] else 'empty'
+                got = f"ih={num(j['inputHash'])};idx={idx};pre={num(j['preRoot'])};post={num(j['postRoot'])};ids={ids};mp={rows}"
+        except Exception as e:
+            got = f'exit {p.returncode}: unparsable output ({e})'
+        lines.append(f'gentest\t{m}\t{d}\t{b}')
+        outs.append(got)
+    d_ = common.run([common.DRIVER, 'corr', 'c08'], input='\n'.join(lines) + '\n', env=dict(os.environ))
+    model = d_.stdout.split('\n')[:len(lines)]
+    bad = [(l, o, mo) for l, o, mo in zip(lines, outs, model) if o != mo]
+    ctx.oblige(f'real `gnark-mbu gen-test-params` on {len(lines)} dimension pairs (full trees included) = the proved generator model', not bad and len(model) == len(lines),
+               '' if not bad else str(bad[0])[:300])
+    ctx.extra['extra_evaluations'] = ctx.extra.get('extra_evaluations', 0) + len(lines)
+    ctx.extra['extra_distinct'] = ctx.extra.get('extra_distinct', 0) + len(lines)
+    if bad:
+        l, o, mo = bad[0]
+        replay = common.write_replay(ctx, 'cli-gentest', {'kind': 'cli-gentest', 'case': l, 'code_says': o[:3000], 'spec_says': mo[:3000],
+                                                         'recipe': 'gnark-mbu gen-test-params --mode M --tree-depth D --batch-size B; compare with the model generator (provable by C08.genTestParams_*_provable)'})
+        raise Violation(f'`gnark-mbu gen-test-params` prints parameters other than the provable ones of the model for {l!r}: {o[:200]} vs {mo[:200]}', replay)
 
 
 def replay(ctx, data):
